@@ -43,6 +43,10 @@ pub struct Case {
     pub workload: Workload,
     pub plan: FaultPlan,
     pub chunk: Chunking,
+    /// generated graphs only: compile through rsass' own FsLoader / CargoLoader code over the
+    /// simulated file system, with the faults injected BELOW the loader (open, read)
+    #[serde(default)]
+    pub via: Via,
 }
 
 static CORPUS: OnceLock<Vec<CorpusCase>> = OnceLock::new();
@@ -80,13 +84,21 @@ pub struct Prepared {
     root_canon: String,
     root_data: Rc<Vec<u8>>,
     fmt: Fmt,
+    /// for the real loaders: the simulated tree and the base directories
+    real: Option<(crate::simfs::SimFs, Vec<String>)>,
+    via: Via,
 }
 
 pub fn prepare(w: &Workload) -> Prepared {
+    prepare_via(w, Via::Stub)
+}
+
+pub fn prepare_via(w: &Workload, via: Via) -> Prepared {
     match w {
         Workload::Graph(spec) => {
             let (store, root_name, root_canon, root_data) = graph_job_parts(spec);
-            Prepared { store, root_name, root_canon, root_data, fmt: spec.fmt }
+            let real = (via != Via::Stub).then(|| (spec.build_fs(), spec.bases.clone()));
+            Prepared { store, root_name, root_canon, root_data, fmt: spec.fmt, real, via }
         }
         Workload::Corpus(c) => {
             let mock = c.mock.iter().map(|(k, v)| (k.clone(), Rc::new(v.clone().into_bytes()))).collect();
@@ -96,6 +108,8 @@ pub fn prepare(w: &Workload) -> Prepared {
                 root_canon: "input.scss".into(),
                 root_data: Rc::new(c.input.clone().into_bytes()),
                 fmt: Fmt { compressed: false, precision: c.precision },
+                real: None,
+                via: Via::Stub,
             }
         }
     }
@@ -104,6 +118,18 @@ pub fn prepare(w: &Workload) -> Prepared {
 const BUDGET: u64 = 200_000;
 
 pub fn run_prepared(p: &Prepared, plan: &FaultPlan, chunk: Chunking) -> Outcome {
+    if let Some((fs, bases)) = &p.real {
+        return run_job_real(&RealJob {
+            fs,
+            bases,
+            root_rel: &p.root_name,
+            fmt: p.fmt,
+            plan,
+            chunk,
+            budget: BUDGET,
+            via: p.via,
+        });
+    }
     run_job(&Job {
         store: p.store.clone(),
         root_name: &p.root_name,
@@ -119,6 +145,7 @@ pub fn run_prepared(p: &Prepared, plan: &FaultPlan, chunk: Chunking) -> Outcome 
 fn plan_sig(plan: &FaultPlan, o: &Outcome) -> String {
     let mut kinds: Vec<String> = plan.finds.values().map(|k| format!("F:{k:?}")).collect();
     kinds.extend(plan.reads.values().map(|(k, _)| format!("R:{k:?}")));
+    kinds.extend(plan.opens.values().map(|k| format!("O:{k:?}")));
     kinds.sort();
     kinds.dedup();
     // the load statement kind in flight when the first fault hit, from the history
@@ -127,7 +154,7 @@ fn plan_sig(plan: &FaultPlan, o: &Outcome) -> String {
         "faults={} kinds={} first={}",
         plan.len(),
         kinds.join(","),
-        if first.contains("#f") { "find" } else if first.contains("#r") { "read" } else { "none" }
+        if first.contains("#f") { "find" } else if first.contains("#r") { "read" } else if first.contains("#o") { "open" } else { "none" }
     )
 }
 
@@ -353,6 +380,103 @@ fn viol(case: &Case, oracle: String, signature: String, detail: String, o: &Outc
     }
 }
 
+/// Complete single-fault enumeration BELOW a real loader: every `File::open` call of the fault-free
+/// history fails with every kind (although `is_file()` just said yes), every opened file fails while
+/// being read (offset 0, line boundaries, interior, instead of EOF); plus multi-fault and benign runs.
+fn enumerate_below_loader(workload: &Workload, via: Via, rng: &mut Rng, stats: &mut Stats, out: &mut Vec<Violation>) {
+    let p = prepare_via(workload, via);
+    let Some(base) = baseline(&p, stats) else {
+        stats.inc("real_loader_workloads_skipped");
+        return;
+    };
+    stats.inc(if via == Via::Fs { "probe:workloads_through_fsloader_over_simfs" } else { "probe:workloads_through_cargoloader_over_simfs" });
+    let mut sizes = BTreeMap::new();
+    let mut bounds = BTreeMap::new();
+    for e in &base.history {
+        if let Event::Read { hit, canon, .. } = e {
+            if let Some(d) = file_data(workload, canon) {
+                sizes.insert(*hit, d.len());
+                let mut b = line_boundaries(&d);
+                if b.len() > 6 {
+                    b = (0..6).map(|_| b[rng.usize(b.len())]).collect();
+                }
+                bounds.insert(*hit, b);
+            }
+        }
+    }
+    let mut plans: Vec<(FaultPlan, Chunking)> = vec![];
+    let full = base.opens * 5 + base.hits * 8 <= 1000;
+    let mut rot = 0usize;
+    for o in 0..base.opens {
+        if full {
+            for k in Kind::OPEN {
+                let mut pl = FaultPlan::default();
+                pl.opens.insert(o, k);
+                plans.push((pl, Chunking::NONE));
+            }
+        } else {
+            let mut pl = FaultPlan::default();
+            pl.opens.insert(o, Kind::OPEN[rot % Kind::OPEN.len()]);
+            rot += 1;
+            plans.push((pl, Chunking::NONE));
+        }
+    }
+    // read faults: reuse the enumeration with no lookup faults
+    let reads_only = Outcome { finds: 0, ..clone_counts(&base) };
+    for pl in single_fault_plans(&reads_only, &sizes, &bounds, rng, stats) {
+        plans.push((pl, if rng.chance(1, 4) { Chunking::draw(rng) } else { Chunking::NONE }));
+    }
+    for _ in 0..4 {
+        let mut pl = FaultPlan::default();
+        for _ in 0..2 + rng.usize(2) {
+            if base.opens > 0 && rng.chance(1, 2) {
+                pl.opens.insert(rng.below(base.opens), *rng.pick(&Kind::OPEN));
+            } else if base.hits > 0 {
+                let h = rng.below(base.hits);
+                let len = sizes.get(&h).copied().unwrap_or(0);
+                pl.reads.insert(h, (*rng.pick(&Kind::READ), rng.usize(len + 1)));
+            }
+        }
+        plans.push((pl, Chunking::draw(rng)));
+    }
+    let c = Chunking::draw(rng);
+    if c.is_benign_noise() {
+        plans.push((FaultPlan::default(), c));
+    }
+    stats.add("below_loader_plans", plans.len() as u64);
+    let mut classes: Vec<(String, String)> = vec![];
+    for (plan, chunk) in plans {
+        let (j, o) = judge_plan(&p, &base, &plan, chunk, true, stats);
+        if !o.delivered.is_empty() {
+            stats.nontrivial(o.history_digest());
+        }
+        if let Judgement::Fail { oracle, signature, detail } = j {
+            let signature = format!("{signature} via={via:?}");
+            if classes.contains(&(oracle.clone(), signature.clone())) {
+                stats.inc("violations_same_class_suppressed");
+                continue;
+            }
+            classes.push((oracle.clone(), signature.clone()));
+            let case = Case { workload: workload.clone(), plan, chunk, via };
+            out.push(viol(&case, oracle, signature, detail, &o));
+        }
+    }
+}
+
+/// Counters of an outcome without its history (for plan enumeration).
+fn clone_counts(o: &Outcome) -> Outcome {
+    Outcome {
+        res: Res::Ok(String::new()),
+        history: vec![],
+        delivered: vec![],
+        budget_hit: false,
+        fired: vcommon::Counters::default(),
+        finds: o.finds,
+        hits: o.hits,
+        opens: o.opens,
+    }
+}
+
 fn workload_for(index: u64, tier: Tier, rng: &mut Rng) -> (Workload, &'static str) {
     let corp = corpus();
     let use_corpus = !corp.is_empty() && index % 5 >= 3; // 2 of 5 runs
@@ -483,7 +607,7 @@ impl Prop for C39 {
                     continue;
                 }
                 classes.push((oracle.clone(), signature.clone()));
-                let case = Case { workload: workload.clone(), plan, chunk };
+                let case = Case { workload: workload.clone(), plan, chunk, via: Via::Stub };
                 out.push(viol(&case, oracle, signature, detail, &o));
             } else if stats.samples.len() < 4 && !o.delivered.is_empty() && rng.chance(1, 50) {
                 stats.samples.push(json!({
@@ -498,13 +622,22 @@ impl Prop for C39 {
                 }));
             }
         }
+        // the same workload through rsass' own loaders over the simulated file system, faults below the loader
+        if matches!(workload, Workload::Graph(_)) {
+            for via in [Via::Fs, Via::Cargo] {
+                if via == Via::Cargo && index % 3 != 0 {
+                    continue;
+                }
+                enumerate_below_loader(&workload, via, &mut rng, stats, &mut out);
+            }
+        }
         out
     }
     fn replay(&self, case: &Json, stats: &mut Stats) -> Vec<Violation> {
         let Ok(case) = serde_json::from_value::<Case>(case.clone()) else {
             return vec![];
         };
-        let p = prepare(&case.workload);
+        let p = prepare_via(&case.workload, case.via);
         let Some(base) = baseline(&p, stats) else {
             return vec![];
         };
@@ -529,6 +662,11 @@ impl Prop for C39 {
             for k in case.plan.reads.keys() {
                 let mut c = case.clone();
                 c.plan.reads.remove(k);
+                push(c, &mut out);
+            }
+            for k in case.plan.opens.keys() {
+                let mut c = case.clone();
+                c.plan.opens.remove(k);
                 push(c, &mut out);
             }
         }
@@ -578,7 +716,7 @@ impl Prop for C39 {
     }
     fn assumptions(&self) -> Vec<String> {
         vec![
-            "faults are injected at the public Loader trait and the Read stream it returns; failures inside FsLoader (stat/open) are below this seam and not reached".into(),
+            "faults are injected (a) at the public Loader trait and the Read stream it returns (SimLoader stub) and (b) below rsass' own FsLoader/CargoLoader, which run as real code over the simulated file system through the instrumented copy (tools/instrument.py): open() failing after is_file() said yes, read errors, short reads, EINTR; a failing stat is indistinguishable from 'no such file' for Path::is_file and is not a fault kind".into(),
             "single-fault enumeration is complete per explored workload, not over all workloads".into(),
             "the reported error must carry the text of the first delivered fault (every propagation path in the unchanged tree preserves it)".into(),
             "workloads whose fault-free baseline panics or is unstable (random()/unique-id()) are skipped and counted".into(),
@@ -589,7 +727,18 @@ impl Prop for C39 {
         if stats.c.get("workloads_enumerated") * 2 < stats.c.get("runs") {
             errs.push("fewer than half of the workloads could be enumerated".into());
         }
-        let mut need = vec!["plans_delivered", "recoveries_checked", "fired:Eintr", "fired:ShortRead"];
+        let mut need = vec![
+            "plans_delivered",
+            "recoveries_checked",
+            "fired:Eintr",
+            "fired:ShortRead",
+            "probe:workloads_through_fsloader_over_simfs",
+            "probe:workloads_through_cargoloader_over_simfs",
+        ];
+        for k in Kind::OPEN {
+            let s: &'static str = Box::leak(format!("fired:OpenErr:{k:?}").into_boxed_str());
+            need.push(s);
+        }
         for k in Kind::FIND {
             let s: &'static str = Box::leak(format!("fired:FindErr:{k:?}").into_boxed_str());
             need.push(s);
